@@ -141,7 +141,7 @@ func nRecords(r *rand.Rand, i int) int {
 	case i <= 3:
 		return 1
 	case i%37 == 5:
-		return 40 + r.Intn(200)
+		return 30 + r.Intn(50)
 	}
 	return 1 + r.Intn(8)
 }
